@@ -8,6 +8,10 @@
 (*    alias@i     another live object changed at step i (shared mutable state)    *)
 (*    returned@i  the object returned by an in-place call is not the result       *)
 (*    liveness@i / failed-call@i (error or panic on a valid call)                 *)
+(* The feature table (raw text attached by the flat-file readers) is part of the *)
+(* record too: it is carried next to the value (fv): New sets it, copies,        *)
+(* non-in-place reverse complements and joins inherit it, a subsequence has      *)
+(* none, nothing else touches it.                                                *)
 (*    bad-event@i the logged operation is outside the specified domain            *)
 (*                (generator problem, not a verdict)                              *)
 EXTENDS Integers, Sequences, FiniteSets, TLC, Json, CSV, IOUtils
@@ -28,6 +32,15 @@ SameVal(o, v) ==
   /\ o.qual = v.qual
   /\ {MMKey(m) : m \in ToSet(o.mm)} = {MMKey(m) : m \in v.mm}
 
+Feat(v) == IF "feat" \in DOMAIN v THEN v.feat ELSE ""
+FeatAfter(fv, st) ==
+  LET t == H!Target(st) IN
+  CASE st.op = "new"                                   -> [fv EXCEPT ![t] = Feat(st.v)]
+    [] st.op = "copy"                                  -> [fv EXCEPT ![t] = fv[st.o]]
+    [] st.op \in {"rc", "join"} /\ st.inplace = 0      -> [fv EXCEPT ![t] = fv[st.o]]
+    [] st.op \in {"sub", "recycle"}                    -> [fv EXCEPT ![t] = ""]
+    [] OTHER                                           -> fv
+
 OpOK(op, lv, vv, N) ==
   LET free(r) == r \in (1..N) \ lv
       len(o) == Len(vv[o].seq)
@@ -45,27 +58,30 @@ OpOK(op, lv, vv, N) ==
 At(why, i) == why \o "@" \o ToString(i)
 
 (* one step: the verdict and the specification state after it *)
-StepVerdict(st, vv, lv, N) ==
+StepVerdict(st, vv, lv, fv, N) ==
   LET op == [st EXCEPT !.v = FromJson(@)] IN
-  IF ~OpOK(op, lv, vv, N) THEN [why |-> "bad-event", vv |-> vv, lv |-> lv]
-  ELSE IF st.problem # "" THEN [why |-> "failed-call", vv |-> vv, lv |-> lv]
+  IF ~OpOK(op, lv, vv, N) THEN [why |-> "bad-event", vv |-> vv, lv |-> lv, fv |-> fv]
+  ELSE IF st.problem # "" THEN [why |-> "failed-call", vv |-> vv, lv |-> lv, fv |-> fv]
   ELSE
     LET vv2 == H!ApplyV(vv, op)
         lv2 == H!LiveAfter(lv, op)
         tgt == H!Target(op)
+        fv2 == FeatAfter(fv, st)
+        Same(h) == SameVal(st.obs[h].v, vv2[h]) /\ Feat(st.obs[h].v) = fv2[h]
         why == IF Len(st.obs) # N \/ \E h \in 1..N : (st.obs[h].l = 1) # (h \in lv2) THEN "liveness"
-               ELSE IF tgt \in lv2 /\ ~SameVal(st.obs[tgt].v, vv2[tgt]) THEN "result"
-               ELSE IF \E h \in lv2 \ {tgt} : ~SameVal(st.obs[h].v, vv2[h]) THEN "alias"
+               ELSE IF tgt \in lv2 /\ ~Same(tgt) THEN "result"
+               ELSE IF \E h \in lv2 \ {tgt} : ~Same(h) THEN "alias"
                ELSE IF st.ret.l = 1 /\ ~SameVal(st.ret.v, vv2[tgt]) THEN "returned"
                ELSE "ok"
-    IN [why |-> why, vv |-> vv2, lv |-> lv2]
+    IN [why |-> why, vv |-> vv2, lv |-> lv2, fv |-> fv2]
 
 (* one initial state per recorded history (validated in parallel), one transition per logged step; *)
 (* the specification state (vv, lv) is carried in the TLC state.                                   *)
-VARIABLES i, vv, lv
+VARIABLES i, vv, lv, fv
 Init == /\ l \in 1..Len(Trace)
         /\ i = 1
         /\ vv = [h \in 1..Trace[l].n |-> H!Nil]
+        /\ fv = [h \in 1..Trace[l].n |-> ""]
         /\ lv = {}
         /\ res = "run"
 
@@ -73,11 +89,11 @@ Next ==
   /\ res = "run"
   /\ LET steps == Trace[l].steps IN
      IF i > Len(steps)
-       THEN res' = "ok" /\ UNCHANGED <<l, i, vv, lv>>
-       ELSE LET r == StepVerdict(steps[i], vv, lv, Trace[l].n) IN
+       THEN res' = "ok" /\ UNCHANGED <<l, i, vv, lv, fv>>
+       ELSE LET r == StepVerdict(steps[i], vv, lv, fv, Trace[l].n) IN
             IF r.why = "ok"
-              THEN vv' = r.vv /\ lv' = r.lv /\ i' = i + 1 /\ UNCHANGED <<l, res>>
-              ELSE res' = At(r.why, i) /\ UNCHANGED <<l, i, vv, lv>>
+              THEN vv' = r.vv /\ lv' = r.lv /\ fv' = r.fv /\ i' = i + 1 /\ UNCHANGED <<l, res>>
+              ELSE res' = At(r.why, i) /\ UNCHANGED <<l, i, vv, lv, fv>>
 
 Report == (res \notin {"run", "ok"}) =>
    CSVWrite("%1$s", <<ToJson([l |-> l, why |-> res])>>, IOEnv.VERIF_REJECTS)
